@@ -48,6 +48,42 @@ impl Scheduler for Shared {
     }
 }
 
+/// A user scheduler that abandons every execution at a pseudo-random decision (returns `None`).
+#[derive(Debug)]
+pub struct Stopper {
+    inner: RandomScheduler,
+    seed: u64,
+    iter: u64,
+    n: u64,
+    stop_at: u64,
+}
+
+impl Stopper {
+    pub fn new(seed: u64, iters: usize) -> Self {
+        Stopper { inner: RandomScheduler::new_from_seed(seed, iters), seed, iter: 0, n: 0, stop_at: 0 }
+    }
+}
+
+impl Scheduler for Stopper {
+    fn new_execution(&mut self) -> Option<Schedule> {
+        self.iter += 1;
+        self.n = 0;
+        let x = self.seed.wrapping_mul(6364136223846793005).wrapping_add(self.iter.wrapping_mul(1442695040888963407));
+        self.stop_at = 1 + (x >> 33) % 14;
+        self.inner.new_execution()
+    }
+    fn next_task(&mut self, runnable: &[&Task], current: Option<TaskId>, is_yielding: bool) -> Option<TaskId> {
+        self.n += 1;
+        if self.n == self.stop_at {
+            return None;
+        }
+        self.inner.next_task(runnable, current, is_yielding)
+    }
+    fn next_u64(&mut self) -> u64 {
+        self.inner.next_u64()
+    }
+}
+
 pub struct Exec {
     pub events: Vec<String>,
     pub sched: String,
@@ -117,6 +153,7 @@ pub fn sample_program(p: &Prog, iters: usize, seed: u64, outdir: &str, idx: usiz
         ("urw", Box::new(UrwRandomScheduler::new_from_seed(seed.wrapping_add(1), iters))),
         ("dfs", Box::new(DfsScheduler::new(Some(iters), true))),
         ("rr", Box::new(RoundRobinScheduler::new(1))),
+        ("stopper", Box::new(Stopper::new(seed.wrapping_add(5), iters))),
     ];
     if ntasks > 1 {
         kinds.push(("pct", Box::new(PctScheduler::new_from_seed(seed.wrapping_add(2), 3, iters))));
@@ -150,6 +187,10 @@ pub fn sample_program(p: &Prog, iters: usize, seed: u64, outdir: &str, idx: usiz
             }
             if ex.events.last().map(|e| !e.contains("\"v\":\"ok\"")).unwrap_or(false) {
                 failing += 1;
+            }
+            if ex.events.last().map(|e| e.contains("\"v\":\"stopped\"")).unwrap_or(false) {
+                // abandoned by the scheduler: the record is a prefix, there is nothing to replay to the end
+                continue;
             }
             // replay from the printed string form (with its line breaks)
             rec::reset_log();
